@@ -38,8 +38,6 @@ var classification = map[string]map[string]bool{
 	// SeekNext performs checksum-verified trial reads; a failed trial means "no record starts here"; header parse
 	// failures of a trial read arrive typed (recordHeaderError)
 	"recordio.MMapReader.SeekNext": {"io.EOF": true, "recordio.HeaderChecksumMismatchErr": true, "recordio.MagicNumberMismatchErr": true, "type:recordio.recordHeaderError": true},
-	// a value read that hits end-of-file yields a nil value which then meets the checksum comparison
-	"sstables.SSTableReader.getValueAtOffset": {"io.EOF": true},
 	// index loaders read the index file until end-of-file
 	"sstables.SliceKeyIndexLoader.Load": {"io.EOF": true},
 	// validateDataFile walks the whole index until the iterator is exhausted
